@@ -139,6 +139,14 @@ class S:
                 fs.append(nm)                       # punning
             else:
                 fs.append("%s: %s" % (nm, self.expr(d - 1)))
+        if self.comments and self.chance(0.15):      # one field per line, comments before some of them
+            lines = []
+            for f in fs:
+                if self.chance(0.4):
+                    self.nc += 1
+                    lines.append("// c%d field" % self.nc)
+                lines.append(f + ",")
+            return "%s {\n%s\n}" % (self.pick(UPNAMES), "\n".join(lines))
         return "%s { %s }" % (self.pick(UPNAMES), ", ".join(fs))
 
     def block(self, d, ind, bare=True):
